@@ -10,7 +10,7 @@ import (
 )
 
 func genC09(rt *rapid.T) Scenario {
-	return genScenario(rt, Profile{MinTargets: 1, MaxTargets: 3, MinSets: 2, MaxSets: 6, MultiTarget: true, Poison: true, Offline: true, Refuse: true,
+	return genScenario(rt, Profile{MinTargets: 1, MaxTargets: 3, MinSets: 2, MaxSets: 6, MultiTarget: true, Poison: true, Offline: true, Refuse: true, Rollbacks: true,
 		Preempt: 2, Drawn: true})
 }
 
